@@ -84,7 +84,7 @@ Lemma own_step c t :
 Proof.
   intros I Hw Hpc. unfold step_nowrap in Hw.
   destruct (k_wf e L c I t) as (Hok & _ & _). unfold kpc_ok in Hok.
-  destruct (t_pc (c_pool c t)) as [|q|q b|q b|q b got|q b got|q b got|q b got| |hm|hm] eqn:Epc; try contradiction.
+  destruct (t_pc (c_pool c t)) as [|q|q b|q b|q b|q b got|q b got|q b got|q b got| |hm|hm] eqn:Epc; try contradiction.
   - (* a pull *)
     destruct Hok as (Hq & _).
     rewrite (step_res e Hk Hown c t q Epc). unfold finish.
@@ -120,12 +120,12 @@ Lemma other_step c t u :
   (budget (step e c u) t <= budget c t)%nat.
 Proof.
   intros I Hw Hne. unfold budget. rewrite (step_pool_other e c u t Hne).
-  destruct (t_pc (c_pool c t)) as [|q| | | | | | | | |]; try lia.
+  destruct (t_pc (c_pool c t)) as [|q| | | | | | | | | |]; try lia.
   destruct (q_ctx q); [lia|].
   assert (e_len e - s_c (c_sh (step e c u)) <= e_len e - s_c (c_sh c)) as Hs; [|lia].
   unfold step_nowrap in Hw.
   destruct (k_wf e L c I u) as (Hok & _ & _). unfold kpc_ok in Hok.
-  destruct (t_pc (c_pool c u)) as [|q'|q' b|q' b|q' b got|q' b got|q' b got|q' b got| |hm|hm] eqn:Epc; try contradiction.
+  destruct (t_pc (c_pool c u)) as [|q'|q' b|q' b|q' b|q' b got|q' b got|q' b got|q' b got| |hm|hm] eqn:Epc; try contradiction.
   - destruct (t_todo (c_pool c u)) as [|o rest] eqn:Et.
     + rewrite (step_idle_nil e c u) by assumption. lia.
     + rewrite (step_idle_call e c u o rest) by assumption. unfold call. destruct (call_res e (c_pool c u) o); cbn [commit c_sh]; lia.
@@ -140,7 +140,7 @@ Qed.
 
 Lemma budget_pos c t : KInv e L c -> t_pc (c_pool c t) <> PIdle -> (1 <= budget c t)%nat.
 Proof.
-  intros I Hpc. unfold budget. destruct (t_pc (c_pool c t)) as [|q| | | | | | | | |]; try lia; [contradiction|].
+  intros I Hpc. unfold budget. destruct (t_pc (c_pool c t)) as [|q| | | | | | | | | |]; try lia; [contradiction|].
   destruct (q_ctx q); lia.
 Qed.
 
